@@ -211,13 +211,21 @@ def pyMapValidate (keys : List Val) (v : Val) : Res :=
   | .error .typeError => .traitError
   | .error e => .raised e
 
-/-- `BaseEnum.validate` / `TraitEnum.validate`: `value in self.values`; an
-exception raised by `==` propagates. -/
+/-- `TraitEnum.validate` (and the `None` member of Either): `value in self.values`;
+an exception raised by `==` propagates. -/
 def pyEnumValidate (vals : List Val) (v : Val) : Res :=
   match seqContains vals v with
   | .yes => .ok v
   | .no => .traitError
   | .raises e => .raised e
+
+/-- `BaseEnum.validate` (trait_types.py:2116-2130): `value in self.values` inside
+`try … except Exception: pass` — a containment check that raises means "not a
+member", as in the C validator (case 5 / traits#376). -/
+def pySafeEnumValidate (vals : List Val) (v : Val) : Res :=
+  match seqContains vals v with
+  | .yes => .ok v
+  | _ => .traitError
 
 /-- `C*.validate` with `except (ValueError, TypeError)` (CInt, CFloat, CComplex). -/
 def pyCastNumeric (ty : Ty) (v : Val) : Res :=
@@ -336,8 +344,8 @@ def pyValidate : TraitType → Val → Res
     | .error .typeError => .traitError
     | .error e => .raised e
     | .ok w => if pyInRangeI lo hi exLo exHi (intOf w) then .ok w else .traitError
-  -- BaseEnum.validate, 2116-2123
-  | .enum vals, v => pyEnumValidate vals v
+  -- BaseEnum.validate, 2116-2130
+  | .enum vals, v => pySafeEnumValidate vals v
   -- Map.validate, 3161-3168
   | .map keys _, v => pyMapValidate keys v
   -- Tuple.validate (typed), 2455-2480: `type.validate` is CTrait.validate of the
@@ -461,7 +469,9 @@ def pySel (want : Bool) : List TraitType → Val → Res
   | [], _ => .traitError
   | t :: ts, v =>
     if (descOf t).isSome == want then
-      match pyValidate t v with
+      -- set_validate (trait_handlers.py:646-664): a member without a fast validator and
+      -- without a validate method (Any) gets the accept-all `_validate_anything`
+      match (if want || hasPy t then pyValidate t v else .ok v) with
       | .traitError => pySel want ts v
       | r => r
     else pySel want ts v
